@@ -227,6 +227,7 @@ func handleExceptionSignal(vm *r.VM, blockModule *r.Module, catchBlock []*syntax
 
 // EvalStatement - eval statement
 func evalStatement(vm *r.VM, stmt syntax.Statement) (r.Element, error) {
+	verifTick()
 	// set current line
 	vm.SetCurrentLine(stmt.GetCurrentLine())
 
